@@ -439,9 +439,7 @@ func restDecodeTimeout(timeout string) (time.Duration, error) {
 
 // Encode timeout as a float in seconds for X-Server-Timeout header.
 func restEncodeTimeout(timeout time.Duration) string {
-	if timeout == 0 {
-		return ""
-	}
+	// A zero timeout is encoded as "0": an empty value would mean no timeout.
 	return strconv.FormatFloat(timeout.Seconds(), 'f', -1, 64)
 }
 
